@@ -108,7 +108,7 @@ func runMany(t *testing.T) {
 			}
 			res := RunCase(t, c, keep)
 			res.SweepPos = ci
-			if i < 2 && ci == 0 {
+			if i < 2 && ci == 0 || len(res.Violations) > 0 {
 				res.Case = c
 			}
 			for _, v := range res.Violations {
